@@ -243,6 +243,9 @@ def run(ck: Check):
             sc["linger_ms"] = rng.choice([5, 50, 200])
             sc["flush_after"] = [rng.choice([0.0005, 0.002, 0.011, 0.05, 0.101, 0.3]) for _ in range(rng.choice([1, 2]))]
         scs.append(sc)
+    rng_old = random.Random(ck.seed * 7121 + 101)
+    for j in range(ck.n(24, 300)):
+        scs.append(prodsim.old_broker(prodsim.gen_scenario(rng_old, 700000 + j, idempotent=(j % 4 != 3)), rng_old))
     # flush() on a lingering batch followed by a lost reply: the re-sent batch must be recognised by the leader
     for j in range(ck.n(16, 160)):
         sc = prodsim.gen_scenario(rng, 500000 + j, idempotent=True, n_faults=0)
